@@ -35,8 +35,10 @@ def subHeader (n : Nat) : Header :=
   { fin := true, rsv1 := false, rsv2 := false, rsv3 := false, opcode := 2,
     payloadLength := n, masked := false, maskKey := 0 }
 
-/-- The connection writes one `BasicHttpSubSession.Write(b)` performs (each is one
-    item of the asynchronous write queue). -/
+/-- The buffers one `BasicHttpSubSession.Write(b)` hands to the connection. On the pinned tree each was a
+    `conn.Write` of its own, i.e. its own item of the asynchronous write queue (S18); since lal commit
+    "fix: websocket subscribers … queued as one write" they are the buffers of ONE `conn.Writev`, i.e. one
+    queue item (Model/Queue.lean `subItems`), still written to the socket one after the other. -/
 def subWrite (isWs : Bool) (b : Bytes) : List Bytes :=
   if isWs then [makeFrameHeader (subHeader b.length), b] else [b]
 
